@@ -24,6 +24,9 @@ def _head(t):
     return segs[-1] if segs else t
 
 
+I_drop_value = [None]
+
+
 def callee_key(c):
     c = c.strip()
     m = re.match(r"<(.*) as (.*)>::(\w+)(?:::<.*>)?$", c, re.S)
@@ -490,6 +493,10 @@ def build_table(I):
         return deep_clone(I, st, v)
 
     def deep_clone(I, st, v):
+        if isinstance(v, Struct) and v.ty == "Sender":
+            ch = I.read(st, v.fields[0])
+            I.write(st, v.fields[0], (), Struct("Chan", [ch.fields[0], ch.fields[1] + 1, ch.fields[2]]))
+            return v
         if isinstance(v, RefCellV):
             return RefCellV(st.alloc(deep_clone(I, st, I.read(st, v.cell))))
         if isinstance(v, Struct):
@@ -500,10 +507,68 @@ def build_table(I):
             return VecV([deep_clone(I, st, x) for x in v.items])
         return v
 
+    def drop_value(I, st, v, depth=0):
+        """Ownership effects of dropping a value: channel ends inside it are closed (sender count / receiver liveness)."""
+        if depth > 12:
+            return
+        if isinstance(v, Guard):
+            I.release(st, v)
+        elif isinstance(v, Struct):
+            if v.ty == "Sender":
+                ch = I.read(st, v.fields[0])
+                I.write(st, v.fields[0], (), Struct("Chan", [ch.fields[0], max(0, ch.fields[1] - 1), ch.fields[2]]))
+            elif v.ty == "Receiver":
+                ch = I.read(st, v.fields[0])
+                I.write(st, v.fields[0], (), Struct("Chan", [ch.fields[0], ch.fields[1], False]))
+            elif v.ty not in ("Chan", "Task", "JoinHandle", "Scope"):
+                for f in v.fields:
+                    drop_value(I, st, f, depth + 1)
+        elif isinstance(v, Tup):
+            for f in v.items:
+                drop_value(I, st, f, depth + 1)
+        elif isinstance(v, Closure):
+            for f in v.caps:
+                drop_value(I, st, f, depth + 1)
+        elif isinstance(v, Enum):
+            for fs in v.pay.values():
+                for f in fs:
+                    drop_value(I, st, f, depth + 1)
+    I_drop_value[0] = drop_value
+
     @reg("mem::drop")
     def m_drop(I, st, a, c):
-        if isinstance(a[0], Guard):
-            I.release(st, a[0])
+        drop_value(I, st, a[0])
+        return UNIT
+
+    @reg("mem::take")
+    def m_take(I, st, a, c):
+        r = a[0]
+        old = deref(I, st, r)
+        if isinstance(old, MapV):
+            new = MapV(old.kind)
+        elif isinstance(old, VecV):
+            new = VecV(())
+        elif isinstance(old, Enum) and old.ty == "Option":
+            new = none()
+        elif isinstance(old, (int, Fraction)) and not isinstance(old, bool):
+            new = 0
+        else:
+            raise _i.Unsupported("mem::take of %r" % (old,))
+        I.write(st, r.cell, r.path, new)
+        return old
+
+    @reg("mem::replace")
+    def m_replace(I, st, a, c):
+        r = a[0]
+        old = deref(I, st, r)
+        I.write(st, r.cell, r.path, a[1])
+        return old
+
+    @reg("mem::swap")
+    def m_swap(I, st, a, c):
+        x, y = deref(I, st, a[0]), deref(I, st, a[1])
+        I.write(st, a[0].cell, a[0].path, y)
+        I.write(st, a[1].cell, a[1].path, x)
         return UNIT
 
     # ---------------------------------------------------------------- Option / Result
@@ -839,6 +904,128 @@ def build_table(I):
     @reg("BTreeMap::new")
     def bt_new(I, st, a, c):
         return MapV("btree")
+
+    @reg("BTreeMap::append")
+    def bt_append(I, st, a, c):
+        d, s_ = a
+        md, ms = deref(I, st, d), deref(I, st, s_)
+        for k, v in ms.items:
+            md = md.set(k, v)
+        I.write(st, d.cell, d.path, md)
+        I.write(st, s_.cell, s_.path, MapV(ms.kind))
+        return UNIT
+
+    # ------------------------------------------------------------------------------------------ message-level concurrency model
+    # std::thread::scope + Scope::spawn + mpsc::channel at the granularity of messages: a spawned closure is a task that runs
+    # atomically (it may send, never blocks: unbounded channel); a task that blocks in recv() lets the scheduler run any not-yet-started
+    # task first - one path per choice, i.e. every arrival order of the messages; recv() on an empty queue with no runnable task returns
+    # Err when every Sender has been dropped and is a DEADLOCK otherwise. Sender::clone / drop of owning values keep the sender count.
+    def _tasks(I, st):
+        tc = st.mem.get("__tasks__")
+        return tc, (I.read(st, tc) if tc is not None else None)
+
+    def _set_task(I, st, idx, status, result=UNIT):
+        tc, ts = _tasks(I, st)
+        t = ts.items[idx]
+        items = list(ts.items)
+        items[idx] = Struct("Task", (t.fields[0], status, result))
+        I.write(st, tc, (), VecV(items))
+
+    @reg("available_parallelism")
+    def m_avail(I, st, a, c):
+        n = getattr(I, "avail_pll", None)
+        if n is None:
+            raise _i.Unsupported("available_parallelism without a configured worker count")
+        return mk_enum("Result", "Ok", (Struct("NonZero", (n,)),))
+
+    @reg("NonZero::get")
+    def m_nz_get(I, st, a, c):
+        return a[0].fields[0]
+
+    @reg("mpsc::channel", "channel")
+    def m_channel(I, st, a, c):
+        cell = st.alloc(Struct("Chan", [VecV(()), 1, True]))
+        return Tup([Struct("Sender", (cell,)), Struct("Receiver", (cell,))])
+
+    def run_pending(I, st, k):
+        tc, ts = _tasks(I, st)
+        for i, t in enumerate(ts.items):
+            if t.fields[1] is False:
+                _set_task(I, st, i, "running")
+                def hook(st2, rv, i=i):
+                    _set_task(I, st2, i, True, rv)
+                    return run_pending(I, st2, k)
+                return invoke(I, st, t.fields[0], [], hook)
+        return k(st)
+
+    @reg("scope", "thread::scope")
+    def m_scope(I, st, a, c):
+        tcell = st.alloc(VecV(()))
+        st.mem["__tasks__"] = tcell
+        tok = Struct("Scope", (tcell,))
+        def hook(st2, rv):
+            return run_pending(I, st2, lambda st3: ret(rv))     # the scope joins every task before returning
+        return invoke(I, st, a[0], [Ref(st.alloc(tok), ())], hook)
+
+    @reg("Scope::spawn")
+    def m_spawn(I, st, a, c):
+        tc, ts = _tasks(I, st)
+        idx = len(ts.items)
+        I.write(st, tc, (), VecV(ts.items + (Struct("Task", (a[1], False, UNIT)),)))
+        return Struct("JoinHandle", (tc, idx))
+
+    @reg("ScopedJoinHandle::join", "JoinHandle::join")
+    def m_join(I, st, a, c):
+        idx = a[0].fields[1]
+        tc, ts = _tasks(I, st)
+        t = ts.items[idx]
+        if t.fields[1] is True:
+            return mk_enum("Result", "Ok", (t.fields[2],))
+        if t.fields[1] == "running":
+            raise _i.Unsupported("join of a running task")
+        _set_task(I, st, idx, "running")
+        def hook(st2, rv):
+            _set_task(I, st2, idx, True, rv)
+            return ret(mk_enum("Result", "Ok", (rv,)))
+        return invoke(I, st, t.fields[0], [], hook)
+
+    def recv_logic(I, st, ch_cell):
+        ch = I.read(st, ch_cell)
+        q, senders, alive = ch.fields
+        if q.items:
+            head = q.items[0]
+            def do(s_):
+                I.write(s_, ch_cell, (), Struct("Chan", [VecV(q.items[1:]), senders, alive]))
+            return [(None, ("do", do, mk_enum("Result", "Ok", (head,))))]
+        tc, ts = _tasks(I, st)
+        pend = [i for i, t in enumerate(ts.items)] if ts is not None else []
+        pend = [i for i in pend if ts.items[i].fields[1] is False]
+        if pend:
+            acts = []
+            for i in pend:        # the scheduler may let any not-yet-started task run (and send) first: one path per choice
+                def hook(st2, rv, i=i):
+                    _set_task(I, st2, i, True, rv)
+                    return recv_logic(I, st2, ch_cell)
+                acts += invoke(I, st, ts.items[i].fields[0], [], hook)
+            return acts
+        if senders == 0:
+            return ret(mk_enum("Result", "Err", (Struct("RecvError", ()),)))
+        return [(None, panic("DEADLOCK: recv() blocks forever - the queue is empty, no task can still send, and %d Sender(s) are alive" % senders))]
+
+    @reg("Receiver::recv")
+    def m_recv(I, st, a, c):
+        rx = deref(I, st, a[0])
+        return recv_logic(I, st, rx.fields[0])
+
+    @reg("Sender::send")
+    def m_send(I, st, a, c):
+        tx = deref(I, st, a[0])
+        ch = I.read(st, tx.fields[0])
+        q, senders, alive = ch.fields
+        if not alive:
+            return mk_enum("Result", "Err", (Struct("SendError", (a[1],)),))
+        I.write(st, tx.fields[0], (), Struct("Chan", [VecV(q.items + (a[1],)), senders, alive]))
+        return mk_enum("Result", "Ok", (UNIT,))
 
     @reg("HashMap::insert", "BTreeMap::insert")
     def hm_insert(I, st, a, c):
